@@ -156,5 +156,29 @@ EdgeCase(x) ==
     [c EXCEPT !.family = "numbers-edge", !.abs = [c.abs EXCEPT !.extra = IF x.want = NoLit THEN "must-refuse" ELSE "none"] @@ [cls |-> x.cls, tok |-> x.sym]]
 EdgeCases == [i \in DOMAIN EdgeSeq |-> EdgeCase(EdgeSeq[i])]
 
-NumberCases == PortableCases \o EdgeCases
+\* ---- numbers where a string usually stands: the value of a range arm, a plural form ---------------------------------------
+\* (the same visitor reads them; they show as numbers do, and a reference with a literal count selects among them)
+ArmNums == << [sym |-> <<"1","DOT","5","e","3">>, disp |-> <<"1","5","0","0">>],
+              [sym |-> <<"DASH","0","DOT","1","0">>, disp |-> <<"DASH","0","DOT","1">>],
+              [sym |-> <<"1","E","PLUS","2">>, disp |-> <<"1","0","0">>],
+              [sym |-> <<"1","2">>, disp |-> <<"1","2">>],
+              [sym |-> <<"t","r","u","e">>, disp |-> <<"t","r","u","e">>] >>
+ArmKeys ==
+    [rg |-> [k |-> "ranges", ty |-> "i32", ck |-> Cnt,
+             b |-> << [alts |-> <<Exact(3)>>, v |-> <<T(ArmNums[1].disp)>>], [alts |-> <<Excl(4, 0)>>, v |-> <<T(ArmNums[2].disp)>>],
+                      [alts |-> <<Wild>>, v |-> <<T(ArmNums[3].disp)>>] >>],
+     pl |-> [k |-> "plurals", ty |-> "cardinal", ck |-> Cnt, forms |-> [one |-> <<T(ArmNums[4].disp)>>, other |-> <<T(ArmNums[5].disp)>>]],
+     ra |-> Val(<<T(<<"a","COLON">>), Fk(<<"r","g">>, <<NumI32(3)>>), T(<<"PIPE">>), Fk(<<"r","g">>, <<NumI32(5)>>), T(<<"PIPE">>), Fk(<<"r","g">>, <<NumI32(2)>>)>>),
+     rp |-> Val(<<Fk(<<"p","l">>, <<NumTok(<<"1">>, "1")>>), T(<<"PIPE">>), Fk(<<"p","l">>, <<NumTok(<<"2">>, "2")>>)>>)]
+ArmFile ==
+    MapNode(<< <<"rg", SeqNode(<<StrNode(TySymX["i32"]),
+                                 SeqNode(<<RawSym(ArmNums[1].sym), StrNode(SpecText(Exact(3), "i32"))>>),
+                                 SeqNode(<<RawSym(ArmNums[2].sym), StrNode(SpecText(Excl(4, 0), "i32"))>>),
+                                 SeqNode(<<RawSym(ArmNums[3].sym), StrNode(SpecText(Wild, "i32"))>>)>>)>>,
+               <<"pl_one", RawSym(ArmNums[4].sym)>>, <<"pl_other", RawSym(ArmNums[5].sym)>>,
+               <<"ra", StrNode(UnparseX(ArmKeys.ra.v))>>, <<"rp", StrNode(UnparseX(ArmKeys.rp.v))>> >>)
+ArmCase == LET c == NumProject(ArmKeys, "none") IN
+           [c EXCEPT !.family = "numbers-arms", !.files = [j \in DOMAIN c.files |-> <<c.files[j][1], ArmFile>>]]
+
+NumberCases == PortableCases \o <<ArmCase>> \o EdgeCases
 =============================================================================
